@@ -200,7 +200,7 @@ static int parse_cuts(char *w, size_t total, size_t *cuts, int max) {
   return n;
 }
 
-#define MAX_CUTS 100000
+#define MAX_CUTS 1000000
 
 static void run_stream(coap_proto_t proto, int server_side, unsigned long csm_max, const uint8_t *stream, size_t len,
                        const size_t *cuts, int ncuts) {
